@@ -77,6 +77,10 @@ func verifPFiltered(fs []int64, now, ft int64, fails int) bool {
 // and compares every Run and Resolve against the window rule.
 func verifPassiveTimeline(nhosts, steps int) {
 	verifPTimeRange()
+	// small, arithmetic-heavy queries: z3's bit-vector tactic decides them in
+	// milliseconds also when the code under test phrases the window arithmetic
+	// differently from the oracle (the incremental core then needs seconds)
+	verif.Option("solver_bv_tactic", 1)
 	fails := verif.IntRange("fails", 1, 3)
 	ft := verifPNonNeg("fail_timeout")
 	verif.Assume(ft >= 1)
@@ -153,5 +157,5 @@ func VerifPassiveWindowOneHost() {
 
 // VerifPassiveWindowTwoHosts: failures of one host never influence another.
 func VerifPassiveWindowTwoHosts() {
-	verifPassiveTimeline(2, verif.Bound("events_two_hosts", 4, 6))
+	verifPassiveTimeline(2, verif.Bound("events_two_hosts", 3, 6))
 }
